@@ -21,10 +21,16 @@ def mk(c, cls=stg.Frame):
     return cls(fchans=c["F"], tchans=c["T"], df=c["df"], dt=c["dt"], fch1=c["fch1"], ascending=c["ascending"], t_start=0.0)
 
 
+def as_level(c):
+    k = c.get("level_kind", "float")
+    v = c["level"]
+    return {"float": float, "int": int, "int64": np.int64, "float32": np.float32, "float64": np.float64}[k](v)
+
+
 def helper(c, drift=None, smear=None):
     fr = mk(c, Spy)
     with np.errstate(all="ignore"):
-        ret = fr.add_constant_signal(f_start=c["f_start"], drift_rate=c["drift"] if drift is None else drift, level=c["level"], width=c["width"],
+        ret = fr.add_constant_signal(f_start=c["f_start"], drift_rate=c["drift"] if drift is None else drift, level=as_level(c), width=c["width"],
                                      f_profile_type=c["ptype"], doppler_smearing=c["smear"] if smear is None else smear)
     return fr, np.asarray(ret, dtype=float)
 
